@@ -412,6 +412,18 @@ func (h *Session) Parse(p []byte) (frame Frame, err error) {
 	return frame, nil
 }
 
+// onlineTransitionWithLock locks the row and performs the online transition if the host is offline.
+// It returns true if the host transitioned to online.
+func (h *Session) onlineTransitionWithLock(host *Host) bool {
+	host.MACEntry.Row.Lock()
+	defer host.MACEntry.Row.Unlock()
+	if host.Online {
+		return false
+	}
+	h.onlineTransition(host)
+	return true
+}
+
 func (h *Session) onlineTransition(host *Host) {
 	if host.Online {
 		return
